@@ -110,6 +110,15 @@ Example error_line_lexer :
 GSUB1: A -> !") = PErr 2.
 Proof. vm_compute. reflexivity. Qed.
 
+(* nested-action lists *)
+Example nested_example :
+  M_parse_nested U0 (M_explain_nested [(1, 0); (65535, 12); (0, 65535)]) = POk [(1, 0); (65535, 12); (0, 65535)]
+  /\ M_explain_nested [(1, 0); (65535, 12)] = txt "1@0 65535@12"
+  /\ M_parse_nested U0 (txt "1@0 65536@1") = PErr 1
+  /\ M_parse_nested U0 (txt "1@0 2@
+") = PErr 2.
+Proof. vm_compute. repeat split. Qed.
+
 (* the protocol model is not vacuous: a complete run of the repaired code *)
 Example protocol_run : reach false (init 1) (mkP LClosed HNone PDone).
 Proof.
